@@ -32,15 +32,15 @@ Section Data.
   Definition src_index (s : source) (i : Z) : outcome A :=
     if (0 <=? i) && (i <? src_len s) then Ok (src_get s i) else Panic OutOfBounds.
 
-  (** [num_frames(frames, slice)] *)
-  Definition num_frames (s : source) (slice : option (Z * Z)) : outcome Z :=
+  (** [num_frames(frames, slice)]: [end.min(frames.len()).saturating_sub(start)] *)
+  Definition num_frames (s : source) (slice : option (Z * Z)) : Z :=
     match slice with
-    | Some (st, en) => sub_chk en st
-    | None => Ok (src_len s)
+    | Some (st, en) => sat_sub (Z.min en (src_len s)) st
+    | None => src_len s
     end.
   (** [frame_at_index(index, frames, slice)] *)
   Definition frame_at_index (index : Z) (s : source) (slice : option (Z * Z)) : outcome (option A) :=
-    let! n := num_frames s slice in
+    let n := num_frames s slice in
     if index >=? n then Ok None
     else
       let start := match slice with Some (st, _) => st | None => 0 end in
@@ -59,6 +59,6 @@ Section Duration.
   Context {T : Type} {NT : Num T} {ND : NumDur T}.
   (** [StaticSoundData::duration]: [Duration::from_secs_f64(num_frames as f64 / sample_rate as f64)] (ns) *)
   Definition duration {A} (s : source A) (slice : option (Z * Z)) (sample_rate : Z) : outcome Z :=
-    let! n := num_frames s slice in
+    let n := num_frames s slice in
     secs_to_ns (ndiv (nofZ n) (nofZ sample_rate)).
 End Duration.
